@@ -21,6 +21,7 @@ func rulesC02(c *Ctx) {
 	c.NotDec = append(c.NotDec, "the cascade on concrete dependency graphs (completeness follows by induction from R2.4's premises; the induction is in DESIGN.md, not mechanised)", "DisableRIBCheckFn configurations", "effects of Go map iteration order")
 	ribFamily(c, famSel{gate: true, replacedOrig: true, heldOnly: true})
 	rulePendingWriters(c) // a held operation leaves the pending set only with a verdict (shared with C06)
+	rulePendingPrimitives(c)
 	ruleStateWriters(c, writersRIB)
 	ruleCheckWiring(c)
 	ruleCheckFnTable(c)
@@ -156,8 +157,8 @@ func ruleCheckWiring(c *Ctx) {
 				}
 				c.check(readsOnlyImmutableConfig(c, fi, a.guard), rule, fi.Name, "guard of "+a.ctor, c.P.pos(a.node.Pos()),
 					"conditional on write-once RIB configuration", "the option is conditional on "+types.ExprString(a.guard)+", which is not write-once RIB configuration")
-				// the configuration field must be set by the constructor under the equivalent condition
-				checkConfigMirrors(c, rule, fi, a)
+				// (that the constructor sets the configuration field under the condition under which it passes the
+				// option itself is decided by RIB-WIRING's table: field set ⇔ option passed ⇔ the option's probe)
 			}
 		}
 	}
@@ -191,7 +192,7 @@ func ruleCheckWiring(c *Ctx) {
 				for _, call := range callsIn(fl.Body) {
 					if fld, _ := fieldCall(info, call); fld == "fn" && len(call.Args) == 3 {
 						cl := paramObjsLit(info, fl)
-						if len(cl) == 2 && objOfIdent(info, call.Args[0]) == cl[0] && objOfIdent(info, call.Args[1]) == nameParam && objOfIdent(info, call.Args[2]) == cl[1] {
+						if len(cl) == 2 && objOfIdent(info, call.Args[0]) == cl[0] && frameArgRoot(info, nh.Decl, objOfIdent(info, call.Args[1])) == nameParam && objOfIdent(info, call.Args[2]) == cl[1] {
 							ok = true
 						}
 					}
@@ -945,6 +946,15 @@ func ruleRetryAfterInstall(c *Ctx) {
 				v.fail("unresolved ⇒ held or FAILED according to the forward-reference setting", "operation held on a path that has not established that forward references are allowed: "+p.describe(c.P))
 			case !hold && !fwdDisabled:
 				v.fail("unresolved ⇒ held or FAILED according to the forward-reference setting", "unresolved operation not held although forward references may be allowed: "+p.describe(c.P))
+			}
+		default:
+			// neither outcome is established on this path: it must not hold the operation (an attempt that
+			// failed for good — its error in a variable the path never tested, e.g. a shadowed one — would be
+			// held and retried for ever instead of being answered FAILED)
+			for _, e := range p.Events {
+				if e.Kind == "hold" && !e.InLoop && !fatal {
+					v.fail("unresolved ⇒ held or FAILED according to the forward-reference setting", "the operation is held on a path that has not established that the attempt returned (not installed, no error): "+p.describe(c.P))
+				}
 			}
 		}
 	}
